@@ -51,6 +51,19 @@ def U(**kw):
 
 
 UNITS = [
+    # ------------------------------------------------------------------ L0 bits (C01, C04)
+    U(id="l0_get_bits", props=["C01", "C04"], file="units/l0_bits.c", entry="h_l0_get_bits", defines=["H_ENTRY=h_l0_get_bits"],
+      enforce=["lrtr_get_bits"], kind="complete", native={}),
+    U(id="l0_ipv4_get_bits", props=["C01", "C04"], file="units/l0_bits.c", entry="h_l0_ipv4_get_bits", defines=["H_ENTRY=h_l0_ipv4_get_bits"],
+      enforce=["lrtr_ipv4_get_bits"], replace=["lrtr_get_bits"], kind="complete", native={}),
+    U(id="l0_ipv6_get_bits", props=["C01", "C04"], file="units/l0_bits.c", entry="h_l0_ipv6_get_bits", defines=["H_ENTRY=h_l0_ipv6_get_bits"],
+      enforce=["lrtr_ipv6_get_bits"], replace=["lrtr_get_bits"], kind="complete", native={}),
+    U(id="l0_ip_get_bits", props=["C01", "C04"], file="units/l0_ip.c", entry="h_l0_ip_get_bits", defines=["H_ENTRY=h_l0_ip_get_bits"],
+      enforce=["lrtr_ip_addr_get_bits"], replace=["lrtr_ipv4_get_bits", "lrtr_ipv6_get_bits"], kind="complete", native={}),
+    U(id="l0_ip_is_zero", props=["C01", "C04"], file="units/l0_ip.c", entry="h_l0_ip_is_zero", defines=["H_ENTRY=h_l0_ip_is_zero"],
+      enforce=["lrtr_ip_addr_is_zero"], kind="complete", native={}),
+    U(id="l0_ip_equal", props=["C01", "C02", "C04"], file="units/l0_ip.c", entry="h_l0_ip_equal", defines=["H_ENTRY=h_l0_ip_equal"],
+      enforce=["lrtr_ip_addr_equal"], kind="complete", native={}),
     # ------------------------------------------------------------------ C20
     U(id="c20_state_names", props=["C20"], file="units/c20_state_names.c", entry="h_c20_state",
       enforce=["rtr_state_to_str"], kind="complete", bound=70,
@@ -59,6 +72,16 @@ UNITS = [
     U(id="c20_mgr_names", props=["C20"], file="units/c20_mgr_names.c", entry="h_c20_mgr",
       enforce=["rtr_mgr_status_to_str"], kind="complete", bound=70,
       native={}),
+    # ------------------------------------------------------------------ C17
+    U(id="c17_range", props=["C17"], file="units/c17_intervals.c", entry="h_c17_range", defines=["H_ENTRY=h_c17_range"],
+      enforce=["rtr_check_interval_range"], kind="complete", native={}),
+    U(id="c17_apply", props=["C17"], file="units/c17_intervals.c", entry="h_c17_apply", defines=["H_ENTRY=h_c17_apply"],
+      enforce=["apply_interval_value"], kind="complete", native={}),
+    U(id="c17_option", props=["C17"], file="units/c17_intervals.c", entry="h_c17_option", defines=["H_ENTRY=h_c17_option"],
+      enforce=["rtr_check_interval_option"], replace=["rtr_check_interval_range", "apply_interval_value"],
+      kind="complete", native={}),
+    U(id="c17_init", props=["C17", "C05", "C13"], file="units/c17_init.c", entry="h_c17_init",
+      enforce=["rtr_init"], replace=["rtr_check_interval_range"], kind="complete", native={}),
 ]
 
 
